@@ -10,6 +10,7 @@
 #include <sched.h>
 #include <signal.h>
 #include <stdarg.h>
+#include <stdatomic.h>
 #include <stdint.h>
 #include <stdio.h>
 #include <stdlib.h>
@@ -40,8 +41,8 @@ uint64_t vsmt_calls(void) { return g_calls; }
 void vsmt_enter_start(void)
 {
   int n = ++g_in_fork_window;
-  int m = g_max_concurrent_forks;
-  while (n > m && !__atomic_compare_exchange_n(&g_max_concurrent_forks, &m, n, 0, __ATOMIC_SEQ_CST, __ATOMIC_SEQ_CST)) {
+  int m = atomic_load(&g_max_concurrent_forks);
+  while (n > m && !atomic_compare_exchange_weak(&g_max_concurrent_forks, &m, n)) {
   }
 }
 void vsmt_leave_start(void) { --g_in_fork_window; }
